@@ -110,6 +110,9 @@ trait TProxy {
     async fn fail(&mut self, c: u32, i: u32) -> zlink_core::Result<Result<Rp, TErr>>;
     #[zlink(oneway)]
     async fn note(&mut self, c: u32, i: u32) -> zlink_core::Result<()>;
+    /// the failing method, called oneway: the error must not come back either
+    #[zlink(rename = "Fail", oneway)]
+    async fn note_fail(&mut self, c: u32, i: u32) -> zlink_core::Result<()>;
     #[zlink(more)]
     async fn sub(&mut self, c: u32, i: u32, n: u32) -> zlink_core::Result<impl Stream<Item = zlink_core::Result<Result<Rp, TErr>>>>;
 }
@@ -163,7 +166,7 @@ async fn client_task(c: u32, script: Vec<Exchange>, conn: &mut Connection<Sock>,
                     got = 1;
                 }
                 "oneway" => {
-                    let r = conn.note(c, x).await;
+                    let r = if k.n == 1 { conn.note_fail(c, x).await } else { conn.note(c, x).await };
                     if r.is_err() {
                         ev(json!({"ev":"result","c":c,"x":x,"r":{"cls":"io_err","c":0,"i":0,"item":0}}));
                     }
@@ -189,6 +192,7 @@ async fn client_task(c: u32, script: Vec<Exchange>, conn: &mut Connection<Sock>,
                 match k.k.as_str() {
                     "plain" => Call::new(M::Echo { c, i: x, pad: pad.clone() }),
                     "error" => Call::new(M::Fail { c, i: x }),
+                    "oneway" if k.n == 1 => Call::new(M::Fail { c, i: x }).set_oneway(true),
                     "oneway" => Call::new(M::Note { c, i: x }).set_oneway(true),
                     _ => Call::new(M::Sub { c, i: x, n: k.n }).set_more(true),
                 }
@@ -368,7 +372,7 @@ pub fn run(sc: &Scenario, stats: &mut Stats) {
 fn gen_call(r: &mut Rng) -> CallK {
     match r.below(6) {
         0 => CallK { k: "error".into(), n: 0 },
-        1 => CallK { k: "oneway".into(), n: 0 },
+        1 => CallK { k: "oneway".into(), n: r.below(2) as u32 },
         2 => CallK { k: "more".into(), n: r.below(4) as u32 },
         _ => CallK { k: "plain".into(), n: 0 },
     }
